@@ -179,8 +179,37 @@ ALIAS_DIRECTED = [
 ]
 
 
+def label_hygiene_program(rng):
+    """identifiers that look like the suffixed labels the generator makes up (func_F_k, var_V_k, ...), overloads and instantiations of the
+    same name: every function prints its own tag, so a label collision is an assembler error or a wrong call"""
+    base = rng.choice(['test', 'f', 'go', 'func', 'var', 'loop', 'end', 'write_int', 'string', 'data', 'begin_try', 'halt', 'error', 'stack'])
+    names = [base] + rng.sample([base + '_0', base + '_1', base + '_2', base + '_0_0', base + '_1_0', 'func_' + base, 'func_' + base + '_0', base + '0', base + '_'], rng.randint(2, 5))
+    funcs, calls, tag = [], [], 0
+    sigs = rng.sample(['int p', 'bool p', 'byte p', 'string p', 'const int[] p', 'int[] p', '', 'int p, int q'], rng.randint(2, 4))
+    argfor = {'int p': '42', 'bool p': 'true', 'byte p': "'c'", 'string p': '"s"', 'const int[] p': 'ca', 'int[] p': 'ma', '': '', 'int p, int q': '1, 2'}
+    for sg in sigs:   # overloads of the base name (and, for arrays, two access-mode instantiations)
+        tag += 1
+        funcs.append('empty %s(%s) { write("<%d>"); }' % (base, sg, tag))
+        calls.append('%s(%s);' % (base, argfor[sg]))
+        if sg == 'const int[] p':
+            calls.append('%s(ma);' % base)
+    for nm in names[1:]:
+        tag += 1
+        funcs.append('int %s(int p) { write("<%d>"); return p + %d; }' % (nm, tag, tag))
+        calls.append('write(%s(%d));' % (nm, tag))
+    rng.shuffle(funcs)
+    rng.shuffle(calls)
+    gl = ''.join('int %s = %d;\n' % (v, k + 1) for k, v in enumerate(rng.sample(['v', 'v_0', 'v_1', 'v_0_0', 'var_v_0', base + '_v'], 3)))
+    return (gl + 'const int[] ca = [1, 2];\n' + '\n'.join(funcs) + '\nempty @is_you(int a, int b) { int[] ma = [a, b]; ' + ' '.join(calls)
+            + ' write(a); ' + ' '.join('write(%s);' % ln.split()[1] for ln in gl.splitlines()) + ' }\n')
+
+
 def alias_units(ws, stack=300):
-    return [(src, [Cfg((str(a), str(b)), w, stack, False) for a in (0, 1, 2) for b in (1, 2, 0) for w in ws]) for src in ALIAS_DIRECTED]
+    import random as _r
+    rng = _r.Random(20260923)
+    units = [(src, [Cfg((str(a), str(b)), w, stack, False) for a in (0, 1, 2) for b in (1, 2, 0) for w in ws]) for src in ALIAS_DIRECTED]
+    units += [(label_hygiene_program(rng), [Cfg(('1', '2'), w, stack, False) for w in ws[:2]]) for _ in range(12)]
+    return units
 
 
 # ---------------------------------------------------------------- byte-granular stack boundary
